@@ -3,6 +3,7 @@ package main
 // Helpers added in the white-box round on C01 / C02 / C03.
 
 import (
+	"fmt"
 	"go/token"
 	"go/types"
 	"sort"
@@ -643,4 +644,434 @@ func (e *apEngine) requiredScalarPaths(root *types.Named, stopAt map[string]bool
 	visit(root, "")
 	sort.Strings(out)
 	return out
+}
+
+// ---- C03.MUSTSCAN, second clause: no hand-over to the scanner depends on the text of the scalar handed over ----
+
+// apScalarID strips the fields of the leaf carriers (String.Value, Bool.Expression, ...) from the end of a chain: what is
+// left names the scalar itself.
+func apScalarID(ap apath) apath {
+	parts := strings.Split(ap.chain, "/")
+	for len(parts) > 0 {
+		last := parts[len(parts)-1]
+		cut := false
+		for _, pre := range []string{"String.", "Bool.", "Int.", "Float.", "RawYAMLString."} {
+			if strings.HasPrefix(last, pre) {
+				cut = true
+			}
+		}
+		if !cut {
+			break
+		}
+		parts = parts[:len(parts)-1]
+	}
+	return apath{ap.root, strings.Join(parts, "/")}
+}
+
+func (e *apEngine) scalarIDs(v ssa.Value) map[apath]bool {
+	out := map[apath]bool{}
+	for ap := range e.of(v) {
+		out[apScalarID(ap)] = true
+	}
+	return out
+}
+
+// condReads: the condition is computed from (a field of, a method of, a function of) one of the scalars; a plain nil test
+// is not a reading of the text.
+func (e *apEngine) condReads(cond ssa.Value, ids map[apath]bool) bool {
+	hit := false
+	seen := map[ssa.Value]bool{}
+	var walk func(v ssa.Value, d int)
+	walk = func(v ssa.Value, d int) {
+		if v == nil || hit || seen[v] || d > 12 {
+			return
+		}
+		seen[v] = true
+		switch x := v.(type) {
+		case *ssa.Const:
+			return
+		case *ssa.BinOp:
+			if (x.Op == token.EQL || x.Op == token.NEQ) && (isNilConst(x.X) || isNilConst(x.Y)) {
+				return // presence, not text
+			}
+			walk(x.X, d+1)
+			walk(x.Y, d+1)
+			return
+		case *ssa.Phi:
+			for _, ed := range x.Edges {
+				walk(ed, d+1)
+			}
+			return
+		case *ssa.Call:
+			if b, ok := x.Call.Value.(*ssa.Builtin); ok && (b.Name() == "len" || b.Name() == "cap") {
+				if _, isStr := x.Call.Args[0].Type().Underlying().(*types.Basic); !isStr {
+					return // how many elements, not what they say
+				}
+			}
+			if x.Call.IsInvoke() {
+				walk(x.Call.Value, d+1)
+			}
+			for _, a := range x.Call.Args {
+				walk(a, d+1)
+			}
+			return
+		case *ssa.Extract:
+			walk(x.Tuple, d+1)
+			return
+		}
+		// a value read from memory or received: is it (part of) one of the scalars?
+		switch typeStr(v.Type()) {
+		case "*String", "string", "*Bool", "*Int", "*Float", "bool", "String", "*RawYAMLString":
+			for id := range e.scalarIDs(v) {
+				if ids[id] {
+					hit = true
+					return
+				}
+			}
+		}
+		switch x := v.(type) {
+		case *ssa.UnOp:
+			if x.Op != token.MUL {
+				walk(x.X, d+1)
+			}
+		case *ssa.Convert:
+			walk(x.X, d+1)
+		case *ssa.ChangeType:
+			walk(x.X, d+1)
+		case *ssa.MakeInterface:
+			walk(x.X, d+1)
+		case *ssa.Slice:
+			walk(x.X, d+1)
+		}
+	}
+	walk(cond, 0)
+	return hit
+}
+
+// onlyFromEdge: block b can be reached from successor i of the If block a, and not from the other successor, without
+// passing a block that dominates a (the next iteration of an enclosing loop does not count).
+func onlyFromEdge(a *ssa.BasicBlock, i int, b *ssa.BasicBlock) bool {
+	stop := map[*ssa.BasicBlock]bool{}
+	for _, x := range a.Parent().Blocks {
+		if x.Dominates(a) {
+			stop[x] = true
+		}
+	}
+	reach := func(s *ssa.BasicBlock) bool {
+		if stop[s] {
+			return false
+		}
+		return s == b || reachableBlocks([]*ssa.BasicBlock{s}, stop)[b]
+	}
+	return reach(a.Succs[i]) && !reach(a.Succs[1-i])
+}
+
+type scanSite struct {
+	fn   *ssa.Function
+	call ssa.CallInstruction
+	arg  ssa.Value
+	ids  map[apath]bool
+}
+
+// scanSites: the calls in fn that hand (part of) a scalar on towards the expression scanner.
+func (e *apEngine) scanSites(fn *ssa.Function, found map[*ssa.Function]map[apath]bool) []scanSite {
+	var out []scanSite
+	eachInstr(fn, func(_ *ssa.BasicBlock, _ int, in ssa.Instruction) {
+		call, ok := in.(ssa.CallInstruction)
+		if !ok {
+			return
+		}
+		cc := call.Common()
+		for _, g := range e.p.calleesOf(call) {
+			for h := range found[g] {
+				j := -1
+				for i, prm := range g.Params {
+					if prm == h.root {
+						j = i
+					}
+				}
+				if j < 0 {
+					continue
+				}
+				var arg ssa.Value
+				if cc.IsInvoke() {
+					if j == 0 {
+						arg = cc.Value
+					}
+					j--
+				}
+				if arg == nil && j >= 0 && j < len(cc.Args) {
+					arg = cc.Args[j]
+				}
+				if arg == nil {
+					continue
+				}
+				if ids := e.scalarIDs(arg); len(ids) > 0 {
+					out = append(out, scanSite{fn, call, arg, ids})
+				}
+			}
+		}
+	})
+	return out
+}
+
+// leafFields: the AST fields a scalar may be, followed up through the callers of the function that receives it.
+func (e *apEngine) leafFields(ids map[apath]bool, depth int, seen map[*ssa.Parameter]bool) map[string]bool {
+	out := map[string]bool{}
+	for id := range ids {
+		if id.chain != "" {
+			parts := strings.Split(id.chain, "/")
+			out[parts[len(parts)-1]] = true
+			continue
+		}
+		if depth > 4 || seen[id.root] {
+			continue
+		}
+		seen[id.root] = true
+		fn := id.root.Parent()
+		j := -1
+		for i, prm := range fn.Params {
+			if prm == id.root {
+				j = i
+			}
+		}
+		for _, edge := range e.p.callersOf(fn) {
+			if edge.Site == nil || j < 0 {
+				continue
+			}
+			cc := edge.Site.Common()
+			k := j
+			var arg ssa.Value
+			if cc.IsInvoke() {
+				if k == 0 {
+					arg = cc.Value
+				}
+				k--
+			}
+			if arg == nil && k >= 0 && k < len(cc.Args) {
+				arg = cc.Args[k]
+			}
+			if arg == nil {
+				continue
+			}
+			for f := range e.leafFields(e.scalarIDs(arg), depth+1, seen) {
+				out[f] = true
+			}
+		}
+	}
+	return out
+}
+
+// predicateOf: the function whose result (possibly negated) is the condition.
+func predicateOf(cond ssa.Value) *ssa.Function {
+	for {
+		u, ok := cond.(*ssa.UnOp)
+		if !ok || u.Op != token.NOT {
+			break
+		}
+		cond = u.X
+	}
+	if call, ok := cond.(*ssa.Call); ok {
+		return staticCallee(&call.Call)
+	}
+	return nil
+}
+
+// reportedElsewhere: for every AST field the scalar may be, some function of the module tests the same predicate on that
+// field and emits a diagnostic on a path from the outcome opposite to `outcome` - the values that are not scanned here are
+// reported there (a step id without a complete placeholder is checked against the identifier syntax by the id rule).
+func (e *apEngine) reportedElsewhere(pred *ssa.Function, outcome bool, fields map[string]bool) bool {
+	if pred == nil || len(fields) == 0 || !inModule(pred) || len(pred.Params) == 0 {
+		return false
+	}
+	switch typeStr(pred.Params[0].Type()) {
+	case "*String", "*Bool", "*Int", "*Float":
+		// a predicate of the scalar itself (ContainsExpression, IsExpressionAssigned), not a general string function
+	default:
+		return false
+	}
+	covered := map[string]bool{}
+	for _, fn := range e.p.Own().funcs {
+		for _, b := range fn.Blocks {
+			ifi, ok := b.Instrs[len(b.Instrs)-1].(*ssa.If)
+			if !ok || predicateOf(ifi.Cond) != pred {
+				continue
+			}
+			neg := false
+			for c := ifi.Cond; ; {
+				u, ok := c.(*ssa.UnOp)
+				if !ok || u.Op != token.NOT {
+					break
+				}
+				neg = !neg
+				c = u.X
+			}
+			// the successor taken when the predicate has the outcome that is NOT scanned at the site
+			want := !outcome
+			succ := 0
+			if want == neg {
+				succ = 1
+			}
+			reports := false
+			start := b.Succs[succ]
+			for blk := range reachableBlocks([]*ssa.BasicBlock{start}, nil) {
+				for _, in := range blk.Instrs {
+					if emitsDiag(in) {
+						reports = true
+					}
+				}
+			}
+			for _, in := range start.Instrs {
+				if emitsDiag(in) {
+					reports = true
+				}
+			}
+			if !reports {
+				continue
+			}
+			call := ifi.Cond
+			for {
+				u, ok := call.(*ssa.UnOp)
+				if !ok {
+					break
+				}
+				call = u.X
+			}
+			cl := call.(*ssa.Call)
+			var subj ssa.Value
+			if len(cl.Call.Args) > 0 {
+				subj = cl.Call.Args[0]
+			}
+			if subj == nil {
+				continue
+			}
+			for f := range e.leafFields(e.scalarIDs(subj), 0, map[*ssa.Parameter]bool{}) {
+				covered[f] = true
+			}
+		}
+	}
+	for f := range fields {
+		if !covered[f] {
+			return false
+		}
+	}
+	return true
+}
+
+func c03TextGuards(c *Ctx) {
+	p := c.P
+	var roots []*ssa.Function
+	for _, m := range []string{"VisitWorkflowPre", "VisitWorkflowPost", "VisitJobPre", "VisitJobPost", "VisitStep"} {
+		if f := p.Method("RuleExpression", m); f != nil {
+			roots = append(roots, f)
+		}
+	}
+	if len(roots) != 5 {
+		c.anchorMissing("RuleExpression visitor methods")
+		return
+	}
+	eng := p.newAPEngine()
+	found := eng.handedToScanner()
+	reach := p.reachable(roots...)
+	// the scan itself (checkExprsIn and what it calls) searches the text for ${{ and is not a filter in front of the scan
+	inner := map[*ssa.Function]bool{}
+	if scan := c03ScanFunc(p); scan != nil {
+		inner = p.reachable(scan)
+	}
+	var fns []*ssa.Function
+	for fn := range reach {
+		if inModule(fn) && fn.Blocks != nil && !inner[fn] {
+			fns = append(fns, fn)
+		}
+	}
+	sort.Slice(fns, func(i, j int) bool { return fns[i].Pos() < fns[j].Pos() })
+	for _, fn := range fns {
+		sites := eng.scanSites(fn, found)
+		if len(sites) == 0 {
+			continue
+		}
+		bad := ""
+		var badPos token.Pos
+		for _, s := range sites {
+			sb := s.call.Block()
+			for _, a := range fn.Blocks {
+				ifi, ok := a.Instrs[len(a.Instrs)-1].(*ssa.If)
+				if !ok {
+					continue
+				}
+				edge := -1
+				for i := range a.Succs {
+					if onlyFromEdge(a, i, sb) {
+						edge = i
+					}
+				}
+				if edge < 0 || !eng.condReads(ifi.Cond, s.ids) {
+					continue
+				}
+				// (a) the other outcome hands the same scalar to the scanner as well
+				other := false
+				for _, s2 := range sites {
+					if s2.call == s.call || !onlyFromEdge(a, 1-edge, s2.call.Block()) {
+						continue
+					}
+					for id := range s2.ids {
+						if s.ids[id] {
+							other = true
+						}
+					}
+				}
+				if other {
+					continue
+				}
+				// (b) the values left out here are reported by another check of the same predicate
+				outcome := edge == 0
+				for cnd := ifi.Cond; ; {
+					u, ok := cnd.(*ssa.UnOp)
+					if !ok || u.Op != token.NOT {
+						break
+					}
+					outcome = !outcome
+					cnd = u.X
+				}
+				if eng.reportedElsewhere(predicateOf(ifi.Cond), outcome, eng.leafFields(s.ids, 0, map[*ssa.Parameter]bool{})) {
+					continue
+				}
+				if bad == "" {
+					bad = "the hand-over at " + p.Pos(s.call.Pos()) + " happens only for one outcome of the condition at " + p.Pos(ifi.Cond.Pos()) + ", which is computed from the text of the scalar itself"
+					badPos = s.call.Pos()
+				}
+			}
+		}
+		construct := FuncName(fn) + "|hand-over independent of the text"
+		if bad == "" {
+			c.ok(construct, fn.Pos(), fmt.Sprintf("%d hand-over(s) to the scanner; none is conditional on a test of the scalar's own text (nil tests aside), or the other outcome is scanned or reported as well", len(sites)))
+		} else {
+			c.bad(construct, badPos, bad+": a value for which the test fails is never scanned (a filter like ContainsExpression needs the closing }}, so `${{ github.ref` goes unreported)")
+		}
+	}
+}
+
+// c03ScanFunc: the placeholder scan of the expression rule: (*RuleExpression).checkExprsIn, or - under another name - the
+// method of RuleExpression that searches a text for the constant "${{" in a loop.
+func c03ScanFunc(p *Prog) *ssa.Function {
+	if f := p.Method("RuleExpression", "checkExprsIn"); f != nil {
+		return f
+	}
+	var res *ssa.Function
+	for _, fn := range p.Funcs {
+		r := fn.Signature.Recv()
+		if r == nil || typeStr(r.Type()) != "*RuleExpression" || fn.Blocks == nil {
+			continue
+		}
+		eachInstr(fn, func(b *ssa.BasicBlock, _ int, in ssa.Instruction) {
+			call, ok := in.(*ssa.Call)
+			if !ok || calleeFullName(&call.Call) != "strings.Index" || len(call.Call.Args) != 2 || !blockInCycle(b) {
+				return
+			}
+			if s, ok := constString(call.Call.Args[1]); ok && s == "${{" {
+				res = fn
+			}
+		})
+	}
+	return res
 }
